@@ -382,6 +382,10 @@ def main():
     seed = int(os.environ.get("VERIF_SEED", "1"))
     t0 = time.time()
     cfg = json.load(open(os.path.join(ROOT, "checks", prop + ".json")))
+    if ROOT != "/verif":
+        # the configs name build directories under /verif; when the framework runs from a copy
+        # (a snapshot for a background run, an isolated evaluation) they live under that copy
+        cfg = json.loads(json.dumps(cfg).replace("/verif/", ROOT + "/"))
     work = os.path.join(ROOT, "work", prop, tier)
     os.makedirs(work, exist_ok=True)
     res = {}
